@@ -38,6 +38,13 @@ Proof.
 Qed.
 Print Assumptions C19_rollback_keeps_slots.
 
+(* every requested slot length is normalised to an even effective length in [2, 20000]; the node split
+   (btree/node.go, slotsHalf = SlotLength >> 1) keeps all SlotLength+1 items only for an even length. The B-tree
+   itself is not in this model: the tie is SlotNorm correspondence cases + the split-forcing corpus of harness/c19. *)
+Theorem C19_slot_length_even : forall n, Z.even (slot_norm n) = true /\ (2 <= slot_norm n <= 20000)%Z.
+Proof. exact slot_norm_even. Qed.
+Print Assumptions C19_slot_length_even.
+
 (* The full statement is FALSE of the faithful model; each witness is reproduced on the implementation
    by the corpus of harness/c19 (findings/C19.json). *)
 
